@@ -34,6 +34,8 @@ pub struct Sim {
   pub published: Vec<Value>,
   /// responses to client -> server requests (code actions ...)
   pub responses: Vec<Value>,
+  /// params of the `workspace/applyEdit` requests the server sent to the client
+  pub applied_edits: Vec<Value>,
   pub base: PathBuf,
   next_id: i64,
 }
@@ -58,6 +60,7 @@ impl Sim {
       unanswered: VecDeque::new(),
       published: vec![],
       responses: vec![],
+      applied_edits: vec![],
       base,
       next_id: 1,
     };
@@ -132,6 +135,9 @@ impl Sim {
       Poll::Ready(Some(req)) => {
         let method = req.method().to_string();
         if req.id().is_some() {
+          if method == "workspace/applyEdit" {
+            self.applied_edits.push(req.params().cloned().unwrap_or(Value::Null));
+          }
           self.unanswered.push_back(req);
         } else if method == "textDocument/publishDiagnostics" {
           self.published.push(req.params().cloned().unwrap_or(Value::Null));
